@@ -1073,7 +1073,11 @@ pub mod faststr {
         let mut bytes = Bytes::new();
 
         bytes::merge_one_copy(wire_type, &mut bytes, buf, ctx)?;
-        *value = unsafe { FastStr::from_bytes_unchecked(bytes) };
+        // a protobuf `string` is UTF-8: the bytes come from the peer and must be validated
+        // before they are handed out as a `str`
+        *value = FastStr::from_bytes(bytes).map_err(|_| {
+            DecodeError::new("invalid string value: data is not UTF-8 encoded")
+        })?;
         Ok(())
     }
 
